@@ -8,6 +8,11 @@
 A case:
   {api, par, cap, workers, inputs:[[v|'fail']], fn, fail_on, num_steps, max_batch, sched}
   api      'pmap' | 'piter_fn' | 'piter' | 'piter_multiplex' | 'multiplex' | 'piter2' (two-level, oracle only)
+           | 'chain' (q2.enqueue_from_iterator(q1) on top of piter_multiplex, oracle only)
+  multi_ret  the input iterators end with StopIteration(900+i, 950+i) (as an upstream queue's StopIteration(*returned)
+           does) instead of StopIteration(900+i): everything that forwards it has to keep every value
+  fwd      (piter2) iterator_fn = map(...), which forwards the input queue's StopIteration(*returned), instead of a
+           generator with its own return value
   par      parallelism degree P (number of producers for one shared input)
   cap      buffer_size (ignored by 'multiplex', which uses 3*P)
   workers  max_workers of the pool given to piter_fn / piter / piter_multiplex (0 = default pool)
@@ -61,42 +66,58 @@ def make_iter_fn(case, counter):
   return iter_fn
 
 
-class Source(lq.Source):
-  """lq.Source + records which managed thread pulled which value"""
+def source_rets(case, i):
+  """arguments of the StopIteration that ends input i"""
+  return [900 + i, 950 + i] if case.get('multi_ret') else [900 + i]
 
-  def __init__(self, sched, items, ret, pulled):
-    super().__init__(sched, items, ret)
-    self.pulled = pulled
+
+class Source:
+  """An input iterator; every `next` is a scheduler yield point labelled 'next'; records which managed thread
+  pulled which value; ends with StopIteration(*rets)."""
+
+  def __init__(self, sched, items, rets, pulled):
+    self.s, self.items, self.rets, self.i, self.pulled = sched, list(items), list(rets), 0, pulled
+
+  def __iter__(self):
+    return self
 
   def __next__(self):
-    v = super().__next__()
+    self.s.step('next')
+    if self.i >= len(self.items):
+      raise StopIteration(*self.rets)
+    it = self.items[self.i]
+    self.i += 1
+    if it == 'fail':
+      raise ValueError(f'source failed at {self.i - 1}')
     t = self.s.current()
-    self.pulled.setdefault(t.tid if t is not None else -1, []).append(v)
-    return v
+    self.pulled.setdefault(t.tid if t is not None else -1, []).append(it)
+    return it
 
 
 def shape(case):
   """(producer specs, batch_max, max_workers, stop_on_end, cap) as the real code will set them up."""
   api, P, n = case['api'], case['par'], len(case['inputs'])
   src_ret = lambda i: 900 + i
+  more = lambda i: source_rets(case, i)[1:]
   if api == 'pmap':
-    return [dict(sid=0, lock=True, ret=src_ret(0)) for _ in range(P)], MAX_BATCH, P + 1, False, case['cap']
+    return [dict(sid=0, lock=True, ret=src_ret(0), more=more(0)) for _ in range(P)], MAX_BATCH, P + 1, False, case['cap']
   if api in ('piter_fn', 'piter') and n == 1:
     return [dict(sid=0, lock=True, ret=800 + k) for k in range(P)], MAX_BATCH, case['workers'], False, case['cap']
   if api == 'piter':          # several inputs, no iterator_fn: piter_multiplex(buffer_size or max_parallism)
-    return ([dict(sid=i, lock=False, ret=src_ret(i)) for i in range(n)], MAX_BATCH, case['workers'], False,
+    return ([dict(sid=i, lock=False, ret=src_ret(i), more=more(i)) for i in range(n)], MAX_BATCH, case['workers'], False,
             case['cap'] or P)
   if api == 'piter_multiplex':
     withfn = case['fn'] != 'ident' or case.get('fail_on') is not None
-    return ([dict(sid=i, lock=False, ret=(800 + i) if withfn else src_ret(i)) for i in range(n)],
+    return ([dict(sid=i, lock=False, ret=(800 + i) if withfn else src_ret(i), more=[] if withfn else more(i))
+             for i in range(n)],
             case.get('max_batch') or MAX_BATCH, case['workers'], False, case['cap'])
   if api == 'multiplex':
     withfn = case['fn'] != 'ident' or case.get('fail_on') is not None
     if n == 1:
-      return ([dict(sid=0, lock=True, ret=(800 + k) if withfn else src_ret(0)) for k in range(P)],
-              MAX_BATCH, P, True, 3 * P)
-    return ([dict(sid=i, lock=False, ret=(800 + i) if withfn else src_ret(i)) for i in range(n)],
-            MAX_BATCH, P, True, 3 * P)
+      return ([dict(sid=0, lock=True, ret=(800 + k) if withfn else src_ret(0), more=[] if withfn else more(0))
+               for k in range(P)], MAX_BATCH, P, True, 3 * P)
+    return ([dict(sid=i, lock=False, ret=(800 + i) if withfn else src_ret(i), more=[] if withfn else more(i))
+             for i in range(n)], MAX_BATCH, P, True, 3 * P)
   raise ValueError(api)
 
 
@@ -114,8 +135,17 @@ def build(case, iter_utils, sources, pool_of):
     q = iter_utils.piter_fn(make_iter_fn(case, counter), input_iterable=sources[0], thread_pool=pool_of(case['workers']),
                             parallism=P, buffer_size=case['cap'])
     return deq(q), None, q
+  if api == 'chain':
+    pool = pool_of(0)
+    q1 = iter_utils.piter_multiplex(sources, pool, buffer_size=case['cap'])
+    q = iter_utils.IteratorQueue(case['cap'], max_enqueuer=1)
+    pool.submit(q.enqueue_from_iterator, q1)
+    return deq(q), None, q
   if api in ('piter', 'piter2'):
     it_fn = make_iter_fn(case, counter) if (n == 1 or api == 'piter2') else None
+    if api == 'piter2' and case.get('fwd'):
+      f1 = row_fn(case)
+      it_fn = lambda it: map(lambda x: f1(x)[0], it)
     q = iter_utils.piter(it_fn, input_iterators=sources, max_parallism=P, buffer_size=case['cap'],
                          thread_pool=pool_of(case['workers']) if case['workers'] else None)
     return deq(q), None, q
@@ -186,7 +216,7 @@ def run_real(case, max_steps=8000):
       return fm.ThreadPoolExecutor(max_workers=workers) if workers else fm.ThreadPoolExecutor()
 
     def consumer():
-      sources = [Source(sched, items, 900 + i, pulled) for i, items in enumerate(case['inputs'])]
+      sources = [Source(sched, items, source_rets(case, i), pulled) for i, items in enumerate(case['inputs'])]
       it, mux, q = build(case, iter_utils, sources, pool_of)
       res['end'] = consume(case, it, mux, got)
       res['q'] = q
@@ -231,7 +261,7 @@ def model_request(case, choices):
 
 
 def model_requests_obs(case, obs):
-  if case['api'] == 'piter2':
+  if case['api'] in ('piter2', 'chain'):
     return []
   return [model_request(case, obs['choices'])]
 
@@ -294,9 +324,15 @@ def sequential(case):
 
 
 def expected_returns(case):
+  """every generator's return value: what queue.returned and the final StopIteration have to carry"""
+  allsrc = [v for i in range(len(case['inputs'])) for v in source_rets(case, i)]
+  if case['api'] == 'chain':
+    return sorted(allsrc)
   if case['api'] == 'piter2':
+    if case.get('fwd'):       # each of the P pass-through threads forwards everything the input stage collected
+      return sorted(allsrc * case['par'])
     return sorted(800 + k for k in range(case['par']))
-  return sorted(p['ret'] for p in shape(case)[0])
+  return sorted(v for p in shape(case)[0] for v in [p['ret']] + p.get('more', []))
 
 
 def sub_multiset(a, b):
@@ -358,7 +394,7 @@ def gen_case(rng, quick=True, api=None):
     n = 1
   elif api == 'piter_multiplex':
     n = rng.randrange(1, 4)
-  elif api == 'piter2':
+  elif api in ('piter2', 'chain'):
     n = rng.randrange(2, 4)
   else:
     n = rng.choice([1, 1, 2, 3])
@@ -383,7 +419,45 @@ def gen_case(rng, quick=True, api=None):
               max_batch=rng.choice([0, 0, 1, 2]) if api == 'piter_multiplex' else 0,
               sched=dict(kind=rng.choice(['random', 'pct']), seed=rng.randrange(10**9),
                          changes=rng.randrange(1, 6), horizon=rng.choice([50, 150, 400])))
+  case['multi_ret'] = rng.random() < 0.4
+  if api == 'piter2' and rng.random() < 0.6:
+    # pass-through second stage (map): forwards the input queue's StopIteration(*returned)
+    case['fwd'] = True
+    if case['fn'] not in MAP_FNS:
+      case['fn'] = rng.choice(MAP_FNS)
+  if api == 'chain':
+    # a hand-made chain has no upstream link: only the clean run is the library's business
+    case.update(fn='ident', fail_on=None, num_steps=None, workers=0,
+                inputs=[[v for v in it if v != 'fail'] for it in inputs])
   return case
+
+
+def blocked_case(rng, quick=True):
+  """>= 3 producers on a small buffer with enough outputs that several of them are parked in `put` on the full
+  queue when another producer's input / the mapped function fails (or the consumer stops): every parked producer
+  has to be woken (cf. blocked_producers_case of harness/props/c05.py)."""
+  api = rng.choice(['piter_multiplex', 'piter_multiplex', 'piter_fn', 'pmap'])
+  P = rng.randrange(3, 5)
+  if api == 'piter_multiplex':
+    inputs = [[100 * i + j + 1 for j in range(rng.randrange(2, 5))] for i in range(P)]
+    fn = rng.choice(['ident', 'dup'])
+  else:
+    inputs = [[j + 1 for j in range(rng.randrange(5, 9))]]
+    fn = rng.choice(MAP_FNS) if api == 'pmap' else rng.choice(['ident', 'dup', 'inc'])
+  allv = [v for it in inputs for v in it]
+  fail_on, num_steps = None, None
+  r = rng.random()
+  if r < 0.45:
+    fail_on = rng.choice(allv[1:])
+  elif r < 0.8:
+    i = rng.randrange(len(inputs))
+    inputs[i].insert(rng.randrange(1, len(inputs[i]) + 1), 'fail')
+  else:
+    num_steps = rng.randrange(0, 3)
+  return dict(api=api, par=P, cap=rng.choice([1, 1, 2]), workers=0, inputs=inputs, fn=fn, fail_on=fail_on,
+              num_steps=num_steps, max_batch=0, multi_ret=False, blocked=True,
+              sched=dict(kind=rng.choice(['random', 'pct', 'pct']), seed=rng.randrange(10**9),
+                         changes=rng.randrange(1, 6), horizon=rng.choice([50, 150, 400])))
 
 
 def shrink(case, fails):
